@@ -412,6 +412,9 @@ Proof.
   cbn [fst snd] in P1, P2. destruct s1; [exact P1|apply IH; assumption].
 Qed.
 
+Lemma okc_key_slot n c : okc c -> okc (key_slot n c).
+Proof. unfold key_slot. destruct (loopKey n); auto. Qed.
+
 Lemma okc_rloop n c : calm c -> okc (rloop fr n c).
 Proof.
   intro H. unfold rloop. destruct (split_path (loopSrc n)) as [|k rest]; [apply calm_okc; exact H|].
@@ -423,11 +426,11 @@ Proof.
   - destruct v; try (apply calm_okc; exact H1).
     destruct (jget j rest); try (apply calm_okc; exact H1); try (apply H2; exact I);
       match goal with |- context [match ?l with [] => _ | _ :: _ => _ end] => destruct l end;
-      try (apply H2; exact I); (apply okc_vloop; [apply calm_okc; exact H1|intros _; exact H1]).
+      try (apply H2; exact I); (apply okc_key_slot, okc_vloop; [apply calm_okc; exact H1|intros _; exact H1]).
   - destruct v; try (apply calm_okc; exact H1).
     destruct (nth_error (store (w_cerr c None)) oid); try (apply calm_okc; exact H1).
     destruct (oloop ofuel o (prefix ++ rest)) as [[sp cnt]|]; [|apply calm_okc; exact H1].
-    apply okc_oloop_run; [apply calm_okc; exact H1|intros _; exact H1].
+    destruct cnt; [|apply okc_key_slot]; (apply okc_oloop_run; [apply calm_okc; exact H1|intros _; exact H1]).
 Qed.
 
 Lemma good_branch n c ok e : calm c -> plain_opt e -> good (branch fr n c ok e).
